@@ -28,4 +28,19 @@ def Board.evaluate (b : Board) : Int :=
   let s := evalLoop b b.turn evalLoop0 satAdd 0
   evalLoop b b.turn.opp evalLoop1 satSub s
 
+/-- reverse the byte order: rank r ↦ rank 7 − r (`u64::swap_bytes`) -/
+def bswap (x : BB) : BB :=
+  (List.range 8).foldl (fun acc i => acc ||| (((x >>> (8 * i).toUInt64) &&& 0xFF) <<< (8 * (7 - i)).toUInt64)) 0
+
+/-- the colour-mirrored position: ranks flipped, colours and side to move swapped -/
+def mirrorBoard (b : Board) : Board :=
+  let p := b.bbs
+  let q : PBB := { wp := bswap p.bp, wk := bswap p.bk, wq := bswap p.bq, wr := bswap p.br, wb := bswap p.bb, wn := bswap p.bn,
+                   bp := bswap p.wp, bk := bswap p.wk, bq := bswap p.wq, br := bswap p.wr, bb := bswap p.wb, bn := bswap p.wn,
+                   white := bswap p.black, black := bswap p.white, all := bswap p.all }
+  { b with bbs := q, turn := b.turn.opp }
+
+/-- the same position with the other side to move -/
+def swapTurn (b : Board) : Board := { b with turn := b.turn.opp }
+
 end RCE
